@@ -312,7 +312,7 @@ func (c *Check) effectsOf(kinds map[string]*recKind, fn *ssa.Function, stateOf m
 				// argument is a load of the local record variable
 				if u, ok := a.(*ssa.UnOp); ok {
 					obj = u.X
-				} else {
+				} else if a != nil {
 					obj = a
 				}
 			}
@@ -617,6 +617,7 @@ func checkC16(c *Check) {
 			}
 		}
 	}
+	c.eventSwitchExhaustive("R2", []string{"x/deployment/keeper", "x/market/keeper", "x/provider/keeper", "x/audit/keeper"})
 	if npairs < 16 {
 		c.Fail("C16-R2 lost instances: %d pairs", npairs)
 	}
@@ -677,6 +678,7 @@ func checkC16(c *Check) {
 		}
 		c.Ob("R5", "provider event dispatcher consults "+rel+".ParseEvent", pe.Pos(), found, "events of this module are never decoded by the provider")
 	}
+	c.okOnlyPublished("R5")
 
 	// ---- R6 stale records across hook-firing calls (duplicate / spurious events)
 	c.staleAcrossHooksRule("R6", kinds)
@@ -734,4 +736,117 @@ func posOr(a, b token.Pos) token.Pos {
 		return a
 	}
 	return b
+}
+
+// eventSwitchExhaustive (R2): where a keeper function picks the event to emit by comparing a state value against
+// state constants, every state its callers can pass has a branch that emits. A state that falls through is stored
+// without its event (the escrow hooks close groups with "insufficient funds": a helper that only knows "closed" leaves
+// that close unannounced).
+func (c *Check) eventSwitchExhaustive(rule string, rels []string) {
+	l := c.L
+	var possible func(fn *ssa.Function, v ssa.Value, depth int) map[int64]bool
+	possible = func(fn *ssa.Function, v ssa.Value, depth int) map[int64]bool {
+		if s := constSet(v, map[ssa.Value]bool{}); s != nil {
+			return s
+		}
+		var p *ssa.Parameter
+		switch x := v.(type) {
+		case *ssa.Parameter:
+			p = x
+		case *ssa.UnOp:
+			if a, ok := x.X.(*ssa.Alloc); ok {
+				p = paramOfAlloc(a)
+			}
+		}
+		if p == nil || depth > 3 {
+			return nil
+		}
+		g := p.Parent()
+		sites := l.callSitesOf(g)
+		if len(sites) == 0 {
+			return nil
+		}
+		out := map[int64]bool{}
+		for _, site := range sites {
+			a := argFor(site, g, paramIndex(g, p))
+			if a == nil {
+				return nil
+			}
+			s := possible(site.Parent(), a, depth+1)
+			if s == nil {
+				return nil
+			}
+			for k := range s {
+				out[k] = true
+			}
+		}
+		return out
+	}
+	for _, rel := range rels {
+		for _, fn := range l.pkgFuncs(rel) {
+			// comparisons of one value with state constants whose true edge leads to an emit
+			type sw struct {
+				v     ssa.Value
+				cases map[int64]bool
+				pos   ssa.Instruction
+			}
+			sws := map[string]*sw{}
+			for _, b := range fn.Blocks {
+				ifi, ok := b.Instrs[len(b.Instrs)-1].(*ssa.If)
+				if !ok {
+					continue
+				}
+				bo, ok := ifi.Cond.(*ssa.BinOp)
+				if !ok || bo.Op != token.EQL || !strings.HasSuffix(bo.X.Type().String(), "_State") {
+					continue
+				}
+				k, isK := constInt(bo.Y)
+				if !isK {
+					continue
+				}
+				emits := false
+				tb := b.Succs[0]
+				for _, in := range tb.Instrs {
+					if ci, isC := in.(ssa.CallInstruction); isC && calleeMethod(ci) == "EmitEvent" {
+						emits = true
+					}
+				}
+				if !emits {
+					continue
+				}
+				key := Sym(bo.X)
+				if sws[key] == nil {
+					sws[key] = &sw{v: bo.X, cases: map[int64]bool{}, pos: ifi}
+				}
+				sws[key].cases[k] = true
+			}
+			for key, s := range sws {
+				if len(s.cases) < 2 {
+					continue // a single guarded emit is not an event-selecting switch
+				}
+				persists := false
+				for _, call := range callsInOwn(fn) {
+					if isStoreSet(call) {
+						persists = true
+					}
+				}
+				if !persists {
+					continue
+				}
+				c.Analysed(fnName(fn))
+				poss := possible(fn, s.v, 0)
+				if poss == nil {
+					c.Info(rule, fnName(fn)+": states reaching the event-selecting switch on "+short(key)+" not enumerable, exhaustiveness not decided", s.pos.Pos(), "")
+					continue
+				}
+				missing := ""
+				for k := range poss {
+					if !s.cases[k] {
+						missing += itoa(int(k)) + " "
+					}
+				}
+				c.Ob(rule, fnName(fn)+": the event-selecting switch on "+short(key)+" has a branch for every state its callers pass", s.pos.Pos(), missing == "", "state value(s) "+strings.TrimSpace(missing)+" reach the switch, are stored, and emit no event: that change of the record is never announced")
+			}
+		}
+	}
 }
